@@ -99,12 +99,14 @@ def run_session(exe, session, env=None, wrapper=None, go_timeout=120, slow=1.0):
     t_start = time.time()
     dead = False
     bookpath = None
+    bookpaths = []
     for st in session["steps"]:
         kind = st[0]
         if dead:
             break
         if kind == "bookfile":
             fd, bookpath = tempfile.mkstemp(prefix="verif-book-", suffix=".bin")
+            bookpaths.append(bookpath)
             os.write(fd, bytes.fromhex(st[1]))
             os.close(fd)
         elif kind == "send":
@@ -217,9 +219,9 @@ def run_session(exe, session, env=None, wrapper=None, go_timeout=120, slow=1.0):
     res["rc"], res["stderr"], res["hung_on_quit"] = rc, err, hung
     res["wall"] = time.time() - t_start
     res["all_bestmoves"] = sum(1 for l in pr.lines if l.startswith("bestmove"))
-    if bookpath:
+    for bp in bookpaths:
         try:
-            os.remove(bookpath)
+            os.remove(bp)
         except OSError:
             pass
     return res
